@@ -1,7 +1,7 @@
 """C13 - shift / stretch / concatenate / repeat / adjust move every event consistently (DESIGN.md §4 C13)."""
 import ast
 
-from sa import own, cov, roles, astutil as U
+from sa import own, cov, nf, roles, astutil as U
 from sa.roles import Canon
 from sa.loader import norm_text, dotted
 from sa.selftest import Mutant
@@ -68,7 +68,17 @@ def uniform(ctx, name, ptypes, consts, tpaths, op, operand, extra=None, extra_al
   want = {p: (op, operand) for p in tpaths}
   want.update(extra or {})
   for p, (wop, wopd) in sorted(want.items()):
-    hits = [w for w in bp.get(p, []) if w.op == wop and w.value is not None and norm_text(w.value) == wopd]
+    def as_aug(w):
+      # `x = x <op> e` (and `x = e <op> x` for + and *) is the same update as `x <op>= e`
+      if w.op == 'store' and isinstance(w.value, ast.BinOp) and isinstance(w.stmt, ast.Assign) and len(w.stmt.targets) == 1:
+        t = norm_text(w.stmt.targets[0])
+        nm = 'aug:' + type(w.value.op).__name__
+        if norm_text(w.value.left) == t:
+          return (nm, norm_text(w.value.right))
+        if norm_text(w.value.right) == t and isinstance(w.value.op, (ast.Add, ast.Mult)):
+          return (nm, norm_text(w.value.left))
+      return (w.op, norm_text(w.value) if w.value is not None else None)
+    hits = [w for w in bp.get(p, []) if as_aug(w) == (wop, wopd)]
     ok = bool(hits)
     others = [w for w in bp.get(p, []) if w not in hits]
     if others:
@@ -79,7 +89,9 @@ def uniform(ctx, name, ptypes, consts, tpaths, op, operand, extra=None, extra_al
                tag, cov.path_text(p),
                'is written with a different operator/operand: %s' % [norm_text(w.stmt) for w in others] if others else
                'never receives %s %s: events of this kind stay behind' % (wop, wopd))),
-           construct='%s: %s %s %s' % (tag, cov.path_text(p), wop, wopd))
+           construct='%s: %s %s %s' % (tag, cov.path_text(p), wop, wopd),
+           # a write of this very field by this function was located and it is not the uniform operation: decided wherever it stands
+           definite=bool(others) and p == ('total_time',))
   # FRAME: nothing else is written
   allowed = set(want) | set(extra_allowed or {})
   stray = []
@@ -232,6 +244,28 @@ def concat(ctx):
         continue
       good = False
       why.append(norm_text(st))
+    # location-independent reading of the same contract: whichever way the update is written (if/else, conditional expression,
+    # = or +=), the value the offset takes when no explicit durations are given is the total_time of everything merged so far
+    # - not that added to the old offset, which counts the earlier pieces twice
+    for (st, val, op) in defs:
+      if not U.enclosing_loops(fn, st):
+        continue
+      alts = [val.body, val.orelse] if isinstance(val, ast.IfExp) else [val]
+      for alt in alts:
+        if alt is None or not (isinstance(alt, ast.Attribute) and alt.attr == 'total_time' or
+                               any(isinstance(n_, ast.Attribute) and n_.attr == 'total_time' for n_ in ast.walk(alt))):
+          continue
+        try:
+          new = nf.rat(alt) + (nf.rat(U.E(off)) if op == 'aug:Add' else nf.rat(U.E('0')))
+          want = nf.rat(U.E('%s.total_time' % merge_recv)) if merge_recv else None
+        except nf.NFError:
+          continue
+        if want is None:
+          continue
+        okx = new.equals(want)
+        ctx.ob('CONCAT/implicit-offset', fi, st, okx, 'without explicit durations the next offset is the total time merged so far' if okx else
+               'without explicit durations the next offset becomes %r instead of %s.total_time: from the third piece on the earlier pieces are counted twice' % (new, merge_recv),
+               construct='offset := merged total_time when no durations are given', definite=True)
     has_aug = any(op == 'aug:Add' for (_s, _v, op) in defs)
     has_tot = any(op == 'store' and norm_text(v).endswith('.total_time') for (_s, v, op) in defs)
     ctx.ob('CONCAT/running-sum', fi, c, good and has_aug and has_tot,
